@@ -377,13 +377,6 @@ Proof.
   - symmetry. apply Hs. exact E.
 Qed.
 
-Fixpoint vforall2 {A B} (R : A -> B -> Prop) (l : list A) (l' : list B) : Prop :=
-  match l, l' with
-  | [], [] => True
-  | x :: l, y :: l' => R x y /\ vforall2 R l l'
-  | _, _ => False
-  end.
-
 Lemma vmap_ok : forall {A B} (f : A -> vres B) l ys, vmap f l = VOk ys -> Forall2 (fun x y => f x = VOk y) l ys.
 Proof.
   induction l as [|x l IH]; intros ys H; simpl in H.
@@ -912,6 +905,21 @@ Lemma label_spec : forall o, status_in_enum o ->
   (status_label o = LOK <-> o = Some s_passed) /\ (status_label o = LKO <-> o = Some s_failed).
 Proof.
   intros o [H|[H|[H|[H|H]]]]; subst; vm_compute; split; split; intro H; try discriminate; auto.
+Qed.
+
+Lemma no_shown_no_tests : forall l,
+  filter (fun s => negb (is_nil (s_tests_of s))) l = [] -> flat_map s_tests_of l = [].
+Proof.
+  induction l as [|s l IH]; simpl; auto. destruct (s_tests_of s) eqn:E; simpl; [auto | discriminate].
+Qed.
+
+Lemma console_no_test : forall truthy f r, console_short truthy f r = VOk CNoTest ->
+  filter (fun t => f (t_result t)) (all_tests r) = [].
+Proof.
+  intros truthy f r H. unfold console_short in H.
+  destruct (filter (fun s0 => negb (is_nil (s_tests_of s0))) (flatten_suites (filter_suites f (rp_suites r)))) as [|x l] eqn:E.
+  - apply no_shown_no_tests in E. rewrite tests_filter_suites in E. exact E.
+  - destruct (if truthy then _ else _); discriminate.
 Qed.
 
 (* ================================================================ the statements of Props/C20.v ================ *)
